@@ -110,7 +110,7 @@ func ValidateTraces(c *core.Ctx, specName, module, cfg string, traces []*Trace, 
 		for i := 0; i <= line; i++ {
 			res.Events++
 		}
-		rest = append(append([]*Trace{}, rest[ti+1:]...))
+		rest = append([]*Trace{}, rest[ti+1:]...)
 	}
 	if len(rest) > 0 && len(res.Rejected) >= 12 {
 		// many violations: the remaining traces are not judged (reported in the evidence)
